@@ -263,6 +263,36 @@ pub fn run(ctx: &mut Ctx) {
             }
         }
     }
+    // versions built through the tuple conversions: precedence-equal to (and Eq with) the
+    // field-built twin, for every integer type, 3- and 4-tuples
+    ctx.stratum("TC-tuple-built-vs-field-built-twins", true);
+    if ctx.take() {
+        ctx.begin(|| "C04 tuple-built twins".to_string());
+        for ma in [0u64, 1, 2] {
+            for mi in [0u64, 3] {
+                for pa in [0u64, 1, 5, 9] {
+                    for d in [None, Some(0u64), Some(1), Some(4), Some(9), Some(10)] {
+                        let mut m = MV::new(ma, mi, pa);
+                        if let Some(d) = d {
+                            m.pre = vec![d.to_string()];
+                        }
+                        let want = m.to_crate();
+                        let built: Vec<(&str, Version)> = match d {
+                            None => vec![("u8", Version::from((ma as u8, mi as u8, pa as u8))), ("i8", Version::from((ma as i8, mi as i8, pa as i8))), ("u16", Version::from((ma as u16, mi as u16, pa as u16))), ("i16", Version::from((ma as i16, mi as i16, pa as i16))), ("u32", Version::from((ma as u32, mi as u32, pa as u32))), ("i32", Version::from((ma as i32, mi as i32, pa as i32))), ("u64", Version::from((ma, mi, pa))), ("i64", Version::from((ma as i64, mi as i64, pa as i64))), ("usize", Version::from((ma as usize, mi as usize, pa as usize))), ("isize", Version::from((ma as isize, mi as isize, pa as isize)))],
+                            Some(d) => vec![("u8", Version::from((ma as u8, mi as u8, pa as u8, d as u8))), ("i8", Version::from((ma as i8, mi as i8, pa as i8, d as i8))), ("u16", Version::from((ma as u16, mi as u16, pa as u16, d as u16))), ("i16", Version::from((ma as i16, mi as i16, pa as i16, d as i16))), ("u32", Version::from((ma as u32, mi as u32, pa as u32, d as u32))), ("i32", Version::from((ma as i32, mi as i32, pa as i32, d as i32))), ("u64", Version::from((ma, mi, pa, d))), ("i64", Version::from((ma as i64, mi as i64, pa as i64, d as i64))), ("usize", Version::from((ma as usize, mi as usize, pa as usize, d as usize))), ("isize", Version::from((ma as isize, mi as isize, pa as isize, d as isize)))],
+                        };
+                        for (ty, x) in built {
+                            ctx.eval(1);
+                            ctx.class("tuple-twin");
+                            if x.cmp(&want) != Ordering::Equal || x != want || x.pre_release != want.pre_release {
+                                ctx.violation(&format!("precedence/tuple-twin/{}/{}", ty, if d.is_some() { 4 } else { 3 }), json!({"version": m.text(), "type": ty}), format!("Version::from(({}-tuple of {})) = {:?} is not precedence-equal to {} built from fields", if d.is_some() { 4 } else { 3 }, ty, x, m.text()));
+                            }
+                        }
+                    }
+                }
+            }
+        }
+    }
     ctx.stratum("P-all-pairs-of-pool", true);
     for i in 0..p.len() {
         if !ctx.take() {
